@@ -349,13 +349,37 @@ class SchemaGen:
     def generate(self, ntypes=None, nfuncs=None):
         r = self.r
         self.prelude()
+        npre = len(self.lines)
         for _ in range(ntypes if ntypes is not None else r.range(1, 10)):
             self.add_type()
         for _ in range(nfuncs if nfuncs is not None else r.range(0, 4)):
             self.add_function()
-        txt = "\n".join(self.lines) + "\n"
-        if self.func_lines:
-            txt += "---functions---\n" + "\n".join(self.func_lines) + "\n"
+        decls = self.lines[npre:]
+        funcs = list(self.func_lines)
+        mode = r.below(4)
+        if mode >= 2:
+            # declaration order is free in TL1: interleave constructors of different types (a union's constructors
+            # are then not adjacent), keeping the relative order inside each union in half of these schemas
+            if mode == 2:
+                r.shuffle(decls)
+            else:
+                keyed = [(r.below(1000), i, d) for i, d in enumerate(decls)]
+                order = sorted(k for k, _, _ in keyed)
+                decls = [d for _, _, d in sorted(keyed, key=lambda t: (t[0], t[1]))]
+                del order
+        body = []
+        if funcs and mode in (1, 3):
+            # functions between constructors, switching sections back and forth
+            while decls or funcs:
+                if decls and (not funcs or r.chance(2, 3)):
+                    body.append(decls.pop(0))
+                else:
+                    body.append("---functions---\n" + funcs.pop(0) + ("\n---types---" if decls else ""))
+            txt = "\n".join(self.lines[:npre] + body) + "\n"
+            return txt
+        txt = "\n".join(self.lines[:npre] + decls) + "\n"
+        if funcs:
+            txt += "---functions---\n" + "\n".join(funcs) + "\n"
         return txt
 
 
